@@ -1,7 +1,7 @@
 SPECIFICATION MCSpec
 CONSTANTS
-  Nodes = {"a","b","c"}
-  Voters0 = {"a","b","c"}
+  Nodes = {"a", "b", "c"}
+  Voters0 = {"a", "b", "c"}
   Observers = {}
   Nil = "Nil"
   BatchBytes = 50
@@ -10,8 +10,8 @@ CONSTANTS
   QueueSize = 10
   SpecialCids = {}
   Journal = TRUE
-  Fork = FALSE
-  DumpFile = FALSE
+  Fork = TRUE
+  DumpFile = TRUE
   VersionedCids = {}
   QuietCids = {}
   Raisers = {}
@@ -19,18 +19,18 @@ CONSTANTS
   InitConnected = TRUE
   Membership = FALSE
   CompactMin = 1000000
-  SnapChunk = 65536
-  Cmds = {}
+  SnapChunk = 60
+  Cmds = {"c1"}
   CmdSize = 40
-  MaxTerm = 2
+  MaxTerm = 1
   MaxLog = 4
   MaxChan = 2
-  MaxFaults = 1
-  Electors = {"a","b","c"}
-  SubmitAt = {}
-  Advs0 = {"z","j"}
+  MaxFaults = 2
+  Electors = {"a"}
+  SubmitAt = {"a"}
+  Advs0 = {"z", "h", "j"}
   SnapSize = 100
-  Compactors = {}
+  Compactors = {"a", "b"}
   FaultPairs = {}
   Isolated0 = {}
   MembCids = {}
@@ -57,6 +57,9 @@ PROPERTY P_CommitIsQuorumBacked
 PROPERTY P_LeaderCompleteness
 PROPERTY P_TermMonotone
 PROPERTY P_ApplyProgress
-PROPERTY P_VoteSurvives
-PROPERTY P_VoteDurableAtDeath
+INVARIANT SnapshotAtPosition
+INVARIANT TransferIntegrity
+INVARIANT HeldSnapshotConsistent
+INVARIANT CompactedPrefixCovered
+PROPERTY P_AckedDurable
 CHECK_DEADLOCK FALSE
